@@ -338,7 +338,8 @@ class Analysis:
                 # an integer behind a reference (`offset: &mut usize`): one value until something writes through the reference
                 if (p[0], "*") not in st.env:
                     a_ = ("drf", p[0], st.ver.get(p[0], 0), bb, idx)
-                    self.atom_src[a_] = ("param" if 1 <= p[0] <= self.b.argc else "other", "")
+                    # a reference to ONE byte of a byte slice (slice pattern `[tag, len, rest @ ..]`) is an input load
+                    self.atom_src[a_] = ("input" if p[0] in self.byte_refs else "param" if 1 <= p[0] <= self.b.argc else "other", "")
                     self.atom_ty[a_] = self.ty(p[0]).split(" ")[-1].lstrip("&")
                     st.env[(p[0], "*")] = Lin.atom(a_)
                 return st.env[(p[0], "*")]
